@@ -216,3 +216,77 @@ Theorem C20_french_marks_protected_spec l pre c post : atoms (fst (french l)) = 
   exists q a mid, pre = q ++ a :: mid /\ protector a = true /\ forallb interp mid = true.
 Proof. intros E Hm. destruct (scan_spec _ false (C20_french_marks_protected l) pre c post E Hm) as [[_ H] | H]; [discriminate H|exact H]. Qed.
 Print Assumptions C20_french_marks_protected_spec.
+
+(* ---------- apostrophes (English, and the same rule in French): every straight apostrophe left in the output is one
+   the author protected - the last atom before it that is not an interpolation is a no-break space or \& / \~ ---------- *)
+Fixpoint scanA (p : bool) (l : list atom) : bool :=
+  match l with
+  | [] => true
+  | AOth _ _ :: r => scanA p r
+  | AEsc e :: r => scanA (protecting e) r
+  | AChar c :: r => if c =? APOS then p && scanA false r else scanA (c =? NBSP) r
+  end.
+Fixpoint lastA (p : bool) (l : list atom) : bool :=
+  match l with
+  | [] => p
+  | AOth _ _ :: r => lastA p r
+  | AEsc e :: r => lastA (protecting e) r
+  | AChar c :: r => lastA (if c =? APOS then false else c =? NBSP) r
+  end.
+Lemma scanA_app a : forall p b, scanA p (a ++ b) = scanA p a && scanA (lastA p a) b.
+Proof. induction a as [|x r IH]; intros p b; [reflexivity|]. destruct x as [c|e|k s]; cbn [app scanA lastA].
+  - destruct (c =? APOS); [rewrite IH, andb_assoc; reflexivity|apply IH].
+  - apply IH.
+  - apply IH. Qed.
+Lemma lastA_app a : forall p b, lastA p (a ++ b) = lastA (lastA p a) b.
+Proof. induction a as [|x r IH]; intros p b; [reflexivity|]. destruct x as [c|e|k s]; cbn [app lastA]; apply IH. Qed.
+
+Definition IvA (s : fst_) : Prop := scanA false (cur_atoms s) = true /\ (esc s = true -> lastA false (cur_atoms s) = true).
+Lemma english_rune_IvA s c : IvA s -> IvA (english_rune s c).
+Proof. intros [A B]. unfold IvA, english_rune, cur_atoms. destruct (c =? APOS) eqn:Ea.
+  - destruct (esc s) eqn:Ee; cbn [out pend esc]; (split; [|discriminate]).
+    + rewrite cur_atoms_push, scanA_app, A, (B eq_refl). cbn [scanA]. rewrite Ea. reflexivity.
+    + change (atoms (out s ++ flush_pend s ++ [IText [RSQUO]]) ++ map AChar []) with (atoms (out s ++ flush_pend s ++ [IText [RSQUO]]) ++ []).
+      rewrite app_nil_r, cur_atoms_flush, scanA_app, A. reflexivity.
+  - cbn [out pend esc]. split; [|discriminate]. rewrite cur_atoms_push, scanA_app, A. cbn [scanA]. rewrite Ea. reflexivity.
+Qed.
+Lemma english_text_IvA t : forall s, IvA s -> IvA (fold_left english_rune t s).
+Proof. induction t as [|c r IH]; intros s H; [exact H|]. cbn [fold_left]. apply IH, english_rune_IvA, H. Qed.
+Lemma english_go_apos l : forall acc e, scanA false (atoms acc) = true -> (e = true -> lastA false (atoms acc) = true) ->
+  scanA false (atoms (english_go l acc e)) = true.
+Proof. induction l as [|i l IH]; intros acc e A B; cbn [english_go]; [exact A|]. destruct i as [t|x|k x].
+  - set (s0 := {| out := acc; pend := []; esc := e; spc := false; errs := 0 |}).
+    assert (H0 : IvA s0) by (split; unfold cur_atoms, s0; cbn [out pend map esc]; rewrite app_nil_r; assumption).
+    destruct (english_text_IvA t s0 H0) as [A1 B1]. set (s1 := fold_left english_rune t s0) in *.
+    assert (E : atoms (out s1 ++ flush_pend s1) = cur_atoms s1) by (rewrite atoms_app, atoms_flush; reflexivity).
+    apply IH; rewrite E; assumption.
+  - apply IH; rewrite atoms_app; [rewrite scanA_app, A; reflexivity|]. intro He. rewrite lastA_app. exact He.
+  - apply IH; rewrite atoms_app; [rewrite scanA_app, A; reflexivity|]. intro He. rewrite lastA_app. cbn [atoms flat_map atoms1 app lastA]. exact (B He).
+Qed.
+Theorem C20_english_apostrophes l : scanA false (atoms (english l)) = true.
+Proof. unfold english. apply english_go_apos; [reflexivity|discriminate]. Qed.
+Lemma scanA_spec : forall l p, scanA p l = true -> forall pre post, l = pre ++ AChar APOS :: post ->
+  (forallb interp pre = true /\ p = true) \/
+  exists q a mid, pre = q ++ a :: mid /\ protector a = true /\ forallb interp mid = true.
+Proof. induction l as [|x r IH]; intros p H pre post E; [destruct pre; discriminate|].
+  destruct pre as [|y pre'].
+  - cbn [app] in E. injection E as -> ->. cbn [scanA] in H. change (APOS =? APOS) with true in H. apply andb_true_iff in H as [Hp _]. left. split; [reflexivity|exact Hp].
+  - cbn [app] in E. injection E as <- E.
+    assert (Hgen : forall p', scanA p' r = true -> (p' = true -> protector x = true \/ (interp x = true /\ p = true)) ->
+       (forallb interp (x :: pre') = true /\ p = true) \/ exists q a mid, x :: pre' = q ++ a :: mid /\ protector a = true /\ forallb interp mid = true).
+    { intros p' H' Hp'. destruct (IH p' H' pre' post E) as [[Hi Hpt] | (q & a & mid & -> & Ha & Hmid)].
+      - destruct (Hp' Hpt) as [Hx | [Hx Hpp]].
+        + right. exists [], x, pre'. split; [reflexivity|]. split; assumption.
+        + left. cbn [forallb]. rewrite Hx, Hi. split; [reflexivity|exact Hpp].
+      - right. exists (x :: q), a, mid. split; [reflexivity|]. split; assumption. }
+    destruct x as [c0|e|k s]; cbn [scanA] in H.
+    + destruct (c0 =? APOS) eqn:Em0.
+      * apply andb_true_iff in H as [_ H]. apply (Hgen false H). discriminate.
+      * apply (Hgen (c0 =? NBSP) H). intro Hn. left. exact Hn.
+    + apply (Hgen (protecting e) H). intro Hn. left. exact Hn.
+    + apply (Hgen p H). intro Hn. right. split; [reflexivity|exact Hn].
+Qed.
+Theorem C20_english_apostrophes_spec l pre post : atoms (english l) = pre ++ AChar APOS :: post ->
+  exists q a mid, pre = q ++ a :: mid /\ protector a = true /\ forallb interp mid = true.
+Proof. intros E. destruct (scanA_spec _ false (C20_english_apostrophes l) pre post E) as [[_ H] | H]; [discriminate H|exact H]. Qed.
+Print Assumptions C20_english_apostrophes_spec.
